@@ -13,6 +13,9 @@ import (
 	"github.com/csgura/fp/eq"
 	"github.com/csgura/fp/hash"
 	"github.com/csgura/fp/immutable"
+	"github.com/csgura/fp/iterator"
+	"github.com/csgura/fp/list"
+	"github.com/csgura/fp/seq"
 	. "verifharness/common"
 )
 
@@ -629,7 +632,23 @@ func (it *interp) stepNew(kind string, args []*Sx) string {
 			ts[i] = fp.Tuple2[int, int]{I1: p.k, I2: p.v}
 		}
 		it.count(fmt.Sprintf("ctor:Map/%s", bucket(len(ps))))
-		return it.push("new-map", false, ref, nil, func(v *ver) { v.m = immutable.Map(it.h, ts...) })
+		// the constructors C03 names: immutable.Map and the ToMap functions of seq / iterator / list are all
+		// "MapBuilder, Add in order, Build" (same trie, same wrapper) - also for EMPTY input (seed C03-8: seq.ToMap
+		// returning the zero-value fp.Map{} for an empty Seq, which drops the hasher)
+		route := (len(ps) + it.hid) % 4
+		it.count([]string{"route:immutable.Map", "route:seq.ToMap", "route:iterator.ToMap", "route:list.ToMap"}[route])
+		return it.push("new-map", false, ref, nil, func(v *ver) {
+			switch route {
+			case 0:
+				v.m = immutable.Map(it.h, ts...)
+			case 1:
+				v.m = seq.ToMap(fp.Seq[fp.Tuple2[int, int]](ts), it.h)
+			case 2:
+				v.m = iterator.ToMap(iterator.FromSeq(fp.Seq[fp.Tuple2[int, int]](ts)), it.h)
+			default:
+				v.m = list.ToMap(list.FromSeq(fp.Seq[fp.Tuple2[int, int]](ts)), it.h)
+			}
+		})
 	case "set":
 		ks, ok := asInts(args)
 		if !ok {
@@ -640,7 +659,20 @@ func (it *interp) stepNew(kind string, args []*Sx) string {
 			ref[it.cls(k)] = 1
 		}
 		it.count(fmt.Sprintf("ctor:Set/%s", bucket(len(ks))))
-		return it.push("new-set", true, ref, nil, func(v *ver) { v.s = immutable.Set(it.h, ks...) })
+		route := (len(ks) + it.hid) % 4
+		it.count([]string{"route:immutable.Set", "route:seq.ToSet", "route:iterator.ToSet", "route:list.ToSet"}[route])
+		return it.push("new-set", true, ref, nil, func(v *ver) {
+			switch route {
+			case 0:
+				v.s = immutable.Set(it.h, ks...)
+			case 1:
+				v.s = seq.ToSet(fp.Seq[int](ks), it.h)
+			case 2:
+				v.s = iterator.ToSet(iterator.FromSeq(fp.Seq[int](ks)), it.h)
+			default:
+				v.s = list.ToSet(list.FromSeq(fp.Seq[int](ks)), it.h)
+			}
+		})
 	case "zmap":
 		it.count("ctor:fp.Map{}")
 		return it.push("new-zmap", false, map[int]int{}, nil, func(v *ver) { v.m = fp.Map[int, int]{} })
